@@ -396,6 +396,103 @@ def overwritten(b: bool) -> int:
 
 
 # --------------------------------------------------------------------------------------
+# the "sibling" program family: for every kind of node with several outputs, unused affine
+# outputs next to copyable siblings that are used 0, 1, 2, 3 times (fan-out), and several
+# unused affine outputs on one node.  Judged against the property text only: every unused
+# value whose type requires a drop has exactly one drop op; no such port is left dangling.
+
+SIB_PRELUDE = PRELUDE + '''
+@guppy.struct
+class SPair:
+    n: int
+    xs: array[int, 3]
+
+@guppy.struct
+class STriple:
+    n: int
+    xs: array[int, 3]
+    ys: array[bool, 2]
+
+@guppy.struct
+class SNest:
+    n: int
+    p: SPair
+
+@guppy.declare
+def mk1() -> tuple[int, array[int, 3]]: ...
+
+@guppy.declare
+def mk2() -> tuple[int, array[int, 3], array[bool, 2]]: ...
+
+@guppy.declare
+def mkopt() -> tuple[int, Option[array[int, 3]]]: ...
+
+@guppy.declare
+def borrow(xs: array[int, 3]) -> int: ...
+
+'''
+
+
+def sibling_programs():
+    """-> (program dict, {func: (expected number of drop leaves, source)})"""
+    funcs, exp = [], {}
+
+    def use(v, u):
+        return "0" if u == 0 else " + ".join([v] * u)
+
+    def add(name, src, k):
+        funcs.append(src)
+        exp[name] = (k, src)
+
+    for u in (0, 1, 2, 3):
+        e = use("n", u)
+        # function Input node
+        add(f"sib_in1_u{u}", f"@guppy\ndef sib_in1_u{u}(n: int, xs: array[int, 3] @ owned) -> int:\n    return {e}\n", 1)
+        add(f"sib_in2_u{u}", f"@guppy\ndef sib_in2_u{u}(n: int, xs: array[int, 3] @ owned, ys: array[bool, 2] @ owned) -> int:\n    return {e}\n", 2)
+        add(f"sib_inopt_u{u}", f"@guppy\ndef sib_inopt_u{u}(xs: Option[array[int, 3]] @ owned, n: int, m: int) -> int:\n    return {e} + m\n", 1)
+        # unpacking the results of a call (multi-output call / UnpackTuple)
+        add(f"sib_call1_u{u}", f"@guppy\ndef sib_call1_u{u}() -> int:\n    n, xs = mk1()\n    return {e}\n", 1)
+        add(f"sib_call2_u{u}", f"@guppy\ndef sib_call2_u{u}() -> int:\n    n, xs, ys = mk2()\n    return {e}\n", 2)
+        add(f"sib_callopt_u{u}", f"@guppy\ndef sib_callopt_u{u}() -> int:\n    n, o = mkopt()\n    return {e}\n", 1)
+        # unpacking a tuple parameter / a local tuple
+        add(f"sib_tup_u{u}", f"@guppy\ndef sib_tup_u{u}(t: tuple[int, array[int, 3]] @ owned) -> int:\n    n, xs = t\n    return {e}\n", 1)
+        add(f"sib_tup2_u{u}", f"@guppy\ndef sib_tup2_u{u}(t: tuple[array[bool, 2], int, array[int, 3]] @ owned) -> int:\n    ys, n, xs = t\n    return {e}\n", 2)
+        add(f"sib_ltup_u{u}", f"@guppy\ndef sib_ltup_u{u}(k: int) -> int:\n    t = (k, array(1, 2, 3))\n    n, xs = t\n    return {e}\n", 1)
+        add(f"sib_tupparam_u{u}", f"@guppy\ndef sib_tupparam_u{u}(n: int, t: tuple[array[int, 3], int] @ owned) -> int:\n    return {e}\n", 1)
+        # struct fields
+        ep = use("p.n", u)
+        add(f"sib_st_u{u}", f"@guppy\ndef sib_st_u{u}(p: SPair @ owned) -> int:\n    return {ep}\n", 1)
+        add(f"sib_st3_u{u}", f"@guppy\ndef sib_st3_u{u}(p: STriple @ owned) -> int:\n    return {ep}\n", 2)
+        add(f"sib_nest_u{u}", f"@guppy\ndef sib_nest_u{u}(q: SNest @ owned) -> int:\n    return {use('q.p.n', u)} + {use('q.n', u)}\n", 1)
+        add(f"sib_stloc_u{u}", f"@guppy\ndef sib_stloc_u{u}(k: int) -> int:\n    p = SPair(k, array(1, 2, 3))\n    return {ep}\n", 1)
+        # borrowed argument returned by a call next to its result
+        add(f"sib_borrow_u{u}", f"@guppy\ndef sib_borrow_u{u}() -> int:\n    xs = array(1, 2, 3)\n    n = borrow(xs)\n    return {e}\n", 1)
+        # conditional: both branches define n and an affine value, only n is used afterwards
+        add(f"sib_if_u{u}", f"@guppy\ndef sib_if_u{u}(b: bool) -> int:\n    if b:\n        n, xs = mk1()\n    else:\n        n = 7\n        xs = array(4, 5, 6)\n    return {e}\n", 2)
+        add(f"sib_if2_u{u}", f"@guppy\ndef sib_if2_u{u}(b: bool, n: int, xs: array[int, 3] @ owned) -> int:\n    if b:\n        return {e}\n    return {e} + 1\n", 1)
+        # loops: affine value defined before / inside a loop whose body only uses the copyable sibling
+        add(f"sib_loop_u{u}", f"@guppy\ndef sib_loop_u{u}(k: int) -> int:\n    n, xs = mk1()\n    i = 0\n    while i < k:\n        i = i + {e} + 1\n    return i\n", 1)
+        add(f"sib_loopin_u{u}", f"@guppy\ndef sib_loopin_u{u}(k: int) -> int:\n    i = 0\n    while i < k:\n        n, xs = mk1()\n        i = i + {e} + 1\n    return i\n", 1)
+        add(f"sib_for_u{u}", f"@guppy\ndef sib_for_u{u}(n: int, xs: array[int, 3] @ owned) -> int:\n    s = 0\n    for j in range(3):\n        s = s + {e}\n    return s\n", 1)
+    return {"name": "siblings", "src": SIB_PRELUDE + "\n".join(funcs), "funcs": list(exp)}, exp
+
+
+def ser_needs_drop(s):
+    """the property's reading on a serialised HUGR type: contains an array / borrow_array or a Linear variable"""
+    t, _ = parse_ser(s, 0)
+
+    def needs(x):
+        if x[0] == "ext":
+            return x[1] in (5, 6) or any(needs(a) for a in x[2] if isinstance(a, tuple))
+        if x[0] == "sum":
+            return any(needs(y) for row in x[1] for y in row)
+        if x[0] == "var":
+            return x[2] == 1
+        return False
+    return needs(t)
+
+
+# --------------------------------------------------------------------------------------
 
 def run(ctx):
     import time
@@ -693,6 +790,8 @@ def run_programs(ctx, r, G, structs, built, n_funcs, spec_viol, have_model=True)
             progs.append({"name": f"prog{k}", "src": src, "funcs": names})
         k += 1
     progs.append({"name": "fixed", "src": FIXED_PROGRAM, "funcs": ["unused_phantom", "field_used", "local_unused", "overwritten"]})
+    sib_prog, sib_exp = sibling_programs()
+    progs.append(sib_prog)
     out = json.loads(ctx.impl("impl_drops.py", {"programs": progs}))
     # model expectation
     flat = [p for key in expect for p in expect[key]]
@@ -705,7 +804,8 @@ def run_programs(ctx, r, G, structs, built, n_funcs, spec_viol, have_model=True)
         except RuntimeError as e:
             ctx.notes.append(f"model evaluation (leaves) failed: {str(e)[-400:]}")
     stats = {"programs": len(progs), "functions": 0, "compiled": 0, "compile_errors": 0, "drops_seen": 0,
-             "functions_with_affine_unused": 0, "mismatches": 0}
+             "functions_with_affine_unused": 0, "mismatches": 0, "sibling_functions": len(sib_exp), "sibling_compiled": 0,
+             "sibling_violations": 0}
     srcs = {p["name"]: p["src"] for p in progs}
     for rec in out:
         stats["functions"] += 1
@@ -720,7 +820,12 @@ def run_programs(ctx, r, G, structs, built, n_funcs, spec_viol, have_model=True)
         replay = {"program": srcs[rec["name"]], "function": rec["func"],
                   "how": "save as a file, `import repo_shim` first (PYTHONPATH=/verif/tools:/repo/guppylang/src:/repo/guppylang-internals/src), "
                          "then <function>.compile_function().modules[0] and list the ExtOp nodes named `drop`"}
-        if rec["dangling"] or not rec["drop_srcs_ok"]:
+        ind = [u for u in rec.get("unlinked", []) if ser_needs_drop(u["ser"])]
+        if rec["name"] != "siblings" and ind and not rec["dangling"]:
+            spec_viol.append((f"dangling:{rec['name']}:{rec['func']}", "a value port of a drop-requiring type is left unconnected in the compiled HUGR",
+                              dict(replay, dangling_ports=[{"op": u["op"], "port": u["port"], "type": u["ty"]} for u in ind])))
+        if (rec["dangling"] or not rec["drop_srcs_ok"]) and rec["name"] != "siblings" and stats.setdefault("dangling_reported", 0) < 3:
+            stats["dangling_reported"] += 1
             ctx.report(f"dangling:{rec['func']}:{rec['dangling']}", "counterexample",
                        "compiled HUGR has an unconnected value port whose type requires a drop (or a malformed drop)",
                        dict(replay, dangling=rec["dangling"], drop_srcs_ok=rec["drop_srcs_ok"]))
@@ -740,6 +845,19 @@ def run_programs(ctx, r, G, structs, built, n_funcs, spec_viol, have_model=True)
                     ctx.report(f"drops:{[s for _, _, s in expect[key]]}", "counterexample",
                                "drop nodes of the compiled HUGR differ from the model's expected drops for the unused parameters",
                                dict(replay, parameter_types=[s for _, _, s in expect[key]], expected_leaves=exp_leaves[key], real_leaves=real_leaves))
+        elif rec["name"] == "siblings":
+            stats["sibling_compiled"] += 1
+            k, fsrc = sib_exp[rec["func"]]
+            leaves = [l for d in rec["drops"] for l in py_leaves(d)]
+            dang = [u for u in rec.get("unlinked", []) if ser_needs_drop(u["ser"])]
+            if len(leaves) != k or dang:
+                stats["sibling_violations"] += 1
+                spec_viol.append((f"sibling-drop:{rec['func']}",
+                                  "an unused affine value does not receive exactly one drop op / a port of a drop-requiring type is left unconnected",
+                                  {"function": fsrc, "prelude": SIB_PRELUDE, "unused_affine_values": k, "drop_leaves_in_hugr": len(leaves),
+                                   "dangling_ports": [{"op": u["op"], "port": u["port"], "type": u["ty"]} for u in dang],
+                                   "how": "save prelude + function as a file, `import repo_shim` first (PYTHONPATH=/verif/tools:/repo/guppylang/src:/repo/guppylang-internals/src), "
+                                          "then <function>.compile_function().modules[0]; count ExtOp nodes named `drop` and value out-ports without links"}))
         elif rec["name"] == "fixed":
             want = {"unused_phantom": None, "field_used": 1, "local_unused": 2, "overwritten": 3}[rec["func"]]
             if rec["func"] == "unused_phantom":
